@@ -28,6 +28,7 @@
         -> tokens ; weekday hour minute second microsecond ampm tzname tzoffset ; ymd ; skipped
     pgen.parse <info> <year> <century> <dayfirst -1|0|1> <yearfirst> <fuzzy> <fuzzy_with_tokens> <cps> <classes>     _parse
         -> N | year month day weekday hour minute second microsecond ampm tzname tzoffset cs ; tokens|-
+    pgen.parsetail <same arguments as parser.parse>    `parser.parse` from the `_parse` call to the return, same answer format
     pgen.naive <year|-> <month|-> <day|-> <weekday|-> <hour|-> <minute|-> <second|-> <microsecond|-> <default [7 ints]>
                                                        _build_naive -> Y M D h m s us
     pgen.step <info> <year> <century> <fuzzy> <i> <tok;tok;…> <classes> <ymd> <hour|-> <ampm|-> <tzname|N> <tzoffset|->
@@ -211,6 +212,16 @@ def handleFn (op : String) (args : List String) : Option String :=
           s!"{showON rs.year} {showON rs.month} {showON rs.day} {showON rs.weekday} {showON rs.hour} {showON rs.minute} {showON rs.second} {showON rs.microsecond} {showON rs.ampm} {showOptName rs.tzname} {showOI rs.tzoffset} {showB rs.centurySpecified} ; " ++
           (match tk with | none => "-" | some l => showToks l))
       (Gen.P.parse (t.length + 1) cls i t (ob df) (ob yf) (fz == "1") (fwt == "1")))
+  | "pgen.parsetail", [flags, dflt, year, century, tzn, tzi, info, cps, classes] =>
+    (match parseIntList? flags, (parseIntList? dflt).bind DT.ofList?, year.toInt?, century.toInt?,
+           (tzn.splitOn ";").mapM parseCps?, parseTzInfos? tzi, parseCps? cps with
+      | some [df, yf, fz, fwt, ig], some d, some y, some c, some tzn, some tzi, some cs =>
+        (parseInfo? info y c).map fun inf =>
+          let cs' := if cps == "-" then [] else cs
+          let tbl := mkTable cs' (if classes == "-" then "" else classes)
+          Py.showR showResultA (Gen.P.parseTail (cs'.length + 1) (clsOfTable tbl) tzn inf cs' d (ig != 0) tzi (optBool? df) (optBool? yf)
+            (fz != 0) (fwt != 0))
+      | _, _, _, _, _, _, _ => none)
   | "pgen.assigntz", [n0, n1, name] => do
     let a ← optName? n0; let b ← optName? n1; let n ← optName? name
     some (showR (fun d : PPy.FoldDt => toString d.fold) (Gen.P.assignTzname dflt { n0 := a, n1 := b } n))
